@@ -197,7 +197,17 @@ class Unit:
         return out
 
     def arange_hook(self, interp, args, line):
-        return NotImplemented
+        """np.arange(start, stop, step) with real arguments: n = ceil((stop-start)/step) values start + k*step (A-REAL)."""
+        start, stop, step = [V.to_real(x) for x in args]
+        ctx = interp.ctx
+        ok = step > 0
+        ctx.oblige(f'{interp.cur_func}.arange-step-positive@{line}', ok, kind='pre-call', line=line)
+        ctx.assume(ok)
+        n = ctx.fresh_int('arange_n')
+        q = (stop - start) / step
+        ctx.assume(z3.And(n >= 0, z3.Implies(q > 0, z3.And(z3.ToReal(n) >= q, z3.ToReal(n) < q + 1)), z3.Implies(q <= 0, n == 0)),
+                   tag='numpy.arange(a,b,s): ceil((b-a)/s) values a + k s (real arithmetic)')
+        return STensor((n,), lambda k: start + V.to_real(k) * step, 'real')
 
     def super_hook(self, interp, line):
         return NotImplemented
@@ -347,6 +357,12 @@ class Unit:
     _sqrt = z3.Function('sqrt', z3.RealSort(), z3.RealSort())
     _ln = z3.Function('ln', z3.RealSort(), z3.RealSort())
     _exp = z3.Function('exp', z3.RealSort(), z3.RealSort())
+
+    _pi = z3.Real('pi')
+
+    def pi(self, ctx):
+        ctx.assume(z3.And(self._pi > z3.RealVal('3.14159'), self._pi < z3.RealVal('3.1416')), tag='pi: symbolic constant in (3.14159, 3.1416)')
+        return self._pi
 
     def sqrt(self, ctx, x):
         x = V.to_real(x)
